@@ -134,3 +134,116 @@ func init() {
 		})
 	})
 }
+
+// nilScan (discovery only): every pointer/func/interface field of a btcd struct that at least one
+// reader compares with nil and at least one other reader uses without a dominating test.
+func nilScan(p *Program) {
+	type stat struct {
+		tested  int
+		unsafe_ []string
+	}
+	stats := map[*types.Var]*stat{}
+	for _, pp := range []*Program{p, p.V2} {
+		if pp == nil {
+			continue
+		}
+		facts := map[*ssa.Function]*FuncFacts{}
+		for fn := range allFuncs(pp) {
+			if fn.Blocks == nil || fn.Pkg == nil || !strings.HasPrefix(fn.Pkg.Pkg.Path(), btcdPrefix) {
+				continue
+			}
+			for _, b := range fn.Blocks {
+				for _, in := range b.Instrs {
+					ld, ok := in.(*ssa.UnOp)
+					if !ok || ld.Op != token.MUL {
+						continue
+					}
+					fa, ok := ld.X.(*ssa.FieldAddr)
+					if !ok {
+						continue
+					}
+					fv := fieldVarOf(fa)
+					if fv == nil || fv.Pkg() == nil || !strings.HasPrefix(fv.Pkg().Path(), btcdPrefix) {
+						continue
+					}
+					switch fv.Type().Underlying().(type) {
+					case *types.Pointer, *types.Signature:
+					default:
+						continue
+					}
+					st := stats[fv]
+					if st == nil {
+						st = &stat{}
+						stats[fv] = st
+					}
+					f := facts[fn]
+					if f == nil {
+						f = pp.facts(fn, defaultRejectMode(fn))
+						facts[fn] = f
+					}
+					term := strings.TrimPrefix(f.c.term(fa), "&")
+					want1, want2 := term+" != nil", "nil != "+term
+					rej, _ := f.rejEdges()
+					only := true
+					bad := false
+					for _, ref := range *ld.Referrers() {
+						if _, ok := ref.(*ssa.DebugRef); ok {
+							continue
+						}
+						if bo, ok := ref.(*ssa.BinOp); ok && (bo.Op == token.EQL || bo.Op == token.NEQ) && (isNilConst(bo.X) || isNilConst(bo.Y)) {
+							continue
+						}
+						only = false
+						// only real dereferences / calls count as unsafe uses
+						deref := false
+						switch r := ref.(type) {
+						case *ssa.FieldAddr, *ssa.Field, *ssa.IndexAddr:
+							deref = true
+						case *ssa.UnOp:
+							deref = r.Op == token.MUL
+						case ssa.CallInstruction:
+							deref = r.Common().Value == ssa.Value(ld) // calling a func-typed field
+						}
+						if !deref {
+							continue
+						}
+						g := false
+						for _, d := range fn.Blocks {
+							iff := f.ifOf(d)
+							if iff == nil {
+								continue
+							}
+							for k := 0; k < 2; k++ {
+								if d != ref.Block() && edgeDominates(d, k, ref.Block()) {
+									if a := f.c.condAtom(iff.Cond, k == 0); a == want1 || a == want2 {
+										g = true
+									}
+								}
+							}
+						}
+						_ = rej
+						if !g {
+							bad = true
+						}
+					}
+					if only {
+						st.tested++
+					} else if bad {
+						st.unsafe_ = append(st.unsafe_, funcName(fn)+" "+pp.pos(ld.Pos()))
+					}
+				}
+			}
+		}
+	}
+	var lines []string
+	for fv, st := range stats {
+		if st.tested > 0 && len(st.unsafe_) > 0 {
+			sort.Strings(st.unsafe_)
+			lines = append(lines, fmt.Sprintf("%s.%s tested=%d unsafe=%d e.g. %s", short(fv.Pkg().Path()), fv.Name(), st.tested, len(st.unsafe_), st.unsafe_[0]))
+		}
+	}
+	sort.Strings(lines)
+	for _, l := range lines {
+		fmt.Println(l)
+	}
+}
